@@ -3,9 +3,12 @@ package worlds
 import (
 	"fmt"
 	"io"
+	stdlog "log"
+	"os"
 	"time"
 
 	"github.com/rs/zerolog"
+	"github.com/rs/zerolog/diode"
 	zlog "github.com/rs/zerolog/log"
 	"github.com/rs/zerolog/zsim"
 )
@@ -205,5 +208,69 @@ func (c06RaceWorld) Run(prop string, ch *zsim.Choices, trace bool) *RunResult {
 		zsim.Join(tasks...)
 	}
 	s := zsim.Run(zsim.Config{MaxSteps: 400000, Trace: trace}, ch, main)
+	return finish(s, ch, summary, nil)
+}
+
+// dioderace is the diode world for -race binaries: producers, the consumer,
+// the cancel path and Close with no shared bookkeeping; oracle = race detector.
+type diodeRaceWorld struct{}
+
+func init() { register("dioderace", diodeRaceWorld{}) }
+
+func (diodeRaceWorld) Props() []string { return nil }
+
+func (diodeRaceWorld) Components() (real, stub []string) {
+	return []string{"same as the diode world, built with -race"}, []string{"wrapped writer that reads the whole buffer before and after a yield", "spin baton (plain word, //go:norace)"}
+}
+
+func (diodeRaceWorld) Run(prop string, ch *zsim.Choices, trace bool) *RunResult {
+	summary := ""
+	stdlog.SetFlags(0)
+	stdlog.SetOutput(io.Discard)
+	defer stdlog.SetOutput(os.Stderr)
+	main := func() {
+		s := zsim.S
+		zerolog.SetGlobalLevel(zerolog.TraceLevel)
+		ring := []int{2, 1, 3, 4, 8}[ch.Intn(5)]
+		interval := []time.Duration{0, time.Millisecond}[ch.Weighted(3, 2)]
+		nProd := 1 + ch.Weighted(2, 4, 2, 1)
+		nWrites := 1 + ch.Intn(5)
+		viaLogger := ch.Chance(1, 2)
+		closeEarly := ch.Chance(1, 4)
+		s.ArmDraw([]string{"diode/"})
+		summary = fmt.Sprintf("race-mode ring=%d interval=%v producers=%d writes=%d logger=%v close-early=%v", ring, interval, nProd, nWrites, viaLogger, closeEarly)
+		alerts := 0
+		dw := diode.NewWriter(raceSink{}, ring, interval, func(missed int) { alerts += missed })
+		lg := zerolog.New(dw)
+		var ts []*zsim.Task
+		for p := 0; p < nProd; p++ {
+			p := p
+			ts = append(ts, zsim.Spawn(fmt.Sprintf("prod%d", p), func() {
+				for k := 0; k < nWrites; k++ {
+					if viaLogger {
+						lg.Log().Int("p", p).Int("k", k).Msg("")
+					} else {
+						buf := []byte(fmt.Sprintf("p%d.%d|payload", p, k))
+						dw.Write(buf)
+						for i := range buf {
+							buf[i] = '#'
+						}
+					}
+				}
+			}))
+		}
+		if closeEarly {
+			for i := 0; i < 8; i++ {
+				zsim.Yield("closer")
+			}
+			dw.Close()
+			zsim.Join(ts...)
+			return
+		}
+		zsim.Join(ts...)
+		zsim.Sleep(3*interval + time.Millisecond)
+		dw.Close()
+	}
+	s := zsim.Run(zsim.Config{MaxSteps: 100000, Trace: trace}, ch, main)
 	return finish(s, ch, summary, nil)
 }
